@@ -293,6 +293,10 @@ namespace sim
 			return;
 		}
 
+		// a completion of a write that finished just before the connection was
+		// closed (which emptied the buffer): nothing left to account for
+		if (bytes_transferred > std::size_t(m_num_server_out_bytes)) return;
+
 		memmove(&m_server_out_buffer[0], &m_server_out_buffer[bytes_transferred]
 			, m_num_server_out_bytes - bytes_transferred);
 		m_num_server_out_bytes -= int(bytes_transferred);
